@@ -4,15 +4,15 @@
 set -u
 C=$(readlink -f "$1"); L=$2; shift 2
 WT=/tmp/rv_$L
-OUT=/tmp/refres/$L.txt
-mkdir -p /tmp/refres
+OUT=${REFRES:-/tmp/refres}/$L.txt
+mkdir -p ${REFRES:-/tmp/refres}
 rm -rf "$WT"; mkdir -p "$WT"; rsync -a --exclude .git --exclude out /repo/ "$WT"/
 (cd "$WT" && git init -q . >/dev/null 2>&1 && git apply "$C/patch.diff") || { echo "$L PATCH DOES NOT APPLY" > "$OUT"; rm -rf "$WT"; exit 4; }
 mkdir -p "$WT/out/V" && cp -r "$C"/* "$WT/out/V/"
 {
 echo "== refactoring $L"
-if [ -f "$WT/out/V/demo.py" ]; then (cd "$WT" && PYTHONPATH="$WT" timeout 1800 /venv/bin/python -B out/V/demo.py > /tmp/refres/$L.demo 2>&1); echo "demo rc=$? $(tail -1 /tmp/refres/$L.demo | cut -c1-100)"; fi
-(cd "$WT" && PYTHONPATH="$WT" timeout 3000 /venv/bin/python -B -m pytest -q -p no:cacheprovider --timeout=900 --deselect tests/test_cij_cli_run.py --deselect tests/test_cij_cli_static.py 2>&1 | tail -1)
+if [ -z "${SKIP_CONFIRM:-}" ] && [ -f "$WT/out/V/demo.py" ]; then (cd "$WT" && PYTHONPATH="$WT" timeout 1800 /venv/bin/python -B out/V/demo.py > ${REFRES:-/tmp/refres}/$L.demo 2>&1); echo "demo rc=$? $(tail -1 ${REFRES:-/tmp/refres}/$L.demo | cut -c1-100)"; fi
+[ -z "${SKIP_CONFIRM:-}" ] && (cd "$WT" && PYTHONPATH="$WT" timeout 3000 /venv/bin/python -B -m pytest -q -p no:cacheprovider --timeout=900 --deselect tests/test_cij_cli_run.py --deselect tests/test_cij_cli_static.py 2>&1 | tail -1)
 cd ${VERIF_DIR:-/verif}
 run_one() { i=$1; T=$2
   out=$(CIJ_REPO=$T CIJSA_EVIDENCE_DIR=$(mktemp -d /tmp/seedev.XXXXXX) ./check C$i --tier quick 2>&1); rc=$?
